@@ -292,7 +292,10 @@ class PredEval:
                 v = self.val(g, env0, depth + 1)
                 if v is None:
                     unknown_guard = True
-                elif bool(v) != pol:
+                elif v == ("raises",):
+                    feasible = False  # (the test itself raises: neither branch is taken)
+                    break
+                elif bool(self.truthy(v)) != pol:
                     feasible = False
                     break
             # try/except: a path that enters a handler is feasible only if the abandoned expression raises; a path
@@ -340,6 +343,9 @@ class PredEval:
             return tm[1]
         if op == "ref":
             name = tm[1]
+            if name.rsplit(".", 1)[-1] == "TypeAliasType":
+                # typing's class, the typing_extensions backport, or the package's compat re-export of either
+                return TypeArg("typing.TypeAliasType")
             if name.startswith(INSP + "."):
                 short = name[len(INSP) + 1 :]
                 if short in ("STDLIB_TYPES", "STDLIB_TYPES_TUPLE", "BUILTIN_TYPES", "BUILTIN_TYPES_TUPLE"):
